@@ -955,7 +955,7 @@ func cmd5(c *Ctx) {
 	okFirst := true
 	why := ""
 	for _, e := range ir.EdgesWhere(fn, test, true) {
-		region := ir.Reach(e.To, nil, nil)
+		region := ir.ReachVia(e.From, e.To, nil, nil)
 		for _, call := range ir.Calls(fn) {
 			if ir.Static(call) == disp && region[call.Block()] {
 				okFirst, why = false, "the command parser can be entered although the version was requested"
@@ -1185,7 +1185,7 @@ func cmd5first(c *Ctx, fn *ssa.Function) {
 		good := false
 		ir.Instrs(fn, func(in ssa.Instruction) {
 			bo, ok := in.(*ssa.BinOp)
-			if !ok || bo.Op != token.EQL || !ir.HoldsAt(bo, true, r.Block()) {
+			if !ok || bo.Op != token.EQL || !r.Holds(bo, true) {
 				return
 			}
 			var other ssa.Value
@@ -1629,7 +1629,7 @@ func cmd7(c *Ctx) {
 					continue
 				}
 				if sl, isR := rangeElem(av.Call.Args[0]); isR {
-					if b, ok := fieldOf(sl, "commands"); ok && b == ssa.Value(recv) && ir.HoldsAt(av, true, r.Block()) {
+					if b, ok := fieldOf(sl, "commands"); ok && b == ssa.Value(recv) && r.Holds(av, true) {
 						good = true
 					}
 				}
@@ -1644,7 +1644,7 @@ func cmd7(c *Ctx) {
 					if _, isPhi := bo.X.(*ssa.Phi); !isPhi {
 						return
 					}
-					if !((bo.Op == token.NEQ && ir.HoldsAt(bo, true, r.Block())) || (bo.Op == token.EQL && ir.HoldsAt(bo, false, r.Block()))) {
+					if !((bo.Op == token.NEQ && r.Holds(bo, true)) || (bo.Op == token.EQL && r.Holds(bo, false))) {
 						return
 					}
 					if t, w := c.aliasHolds(fn, ssa.Value(recv), bo.X, r.Block()); w == "" && (t == tok || ir.ExprKey(t) == ir.ExprKey(tok)) {
@@ -1682,7 +1682,7 @@ func cmd7(c *Ctx) {
 			good := false
 			ir.Instrs(ia, func(in ssa.Instruction) {
 				bo, isBo := in.(*ssa.BinOp)
-				if !isBo || bo.Op != token.EQL || !ir.HoldsAt(bo, true, r.Block()) {
+				if !isBo || bo.Op != token.EQL || !r.Holds(bo, true) {
 					return
 				}
 				var other ssa.Value
@@ -2137,7 +2137,7 @@ func cmd10(c *Ctx) {
 			}
 			ret := false
 			for _, r := range ir.ReturnPoints(fn) {
-				if r.Results[0] == e && errIsNonNilAt(e, r.Block()) {
+				if r.Results[0] == e && errIsNonNilH(e, r.Block(), r.Holds) {
 					ret = true
 				}
 			}
